@@ -171,3 +171,57 @@ def expand(expr: ast.AST, func_node, depth=8, keep=()) -> ast.AST:
         if not changed:
             break
     return ast.fix_missing_locations(e)
+
+
+
+def _mutable_literal(d) -> bool:
+    return isinstance(d, (ast.List, ast.Dict, ast.Set, ast.ListComp, ast.DictComp, ast.SetComp)) or \
+        (isinstance(d, ast.Call) and ast.unparse(d.func) in ("list", "dict", "set", "numpy.array", "numpy.zeros", "defaultdict", "collections.defaultdict"))
+
+
+_MUTATING = {"append", "extend", "insert", "pop", "remove", "sort", "reverse", "clear", "update", "setdefault", "add", "discard", "popitem"}
+
+
+def _field_is_mutated(repo, name) -> bool:
+    """Some function in the package changes a container reached as <expr>.<name> in place (method call, item store, +=)."""
+    for f in repo.all_functions():
+        for n in ast.walk(f.node):
+            if isinstance(n, ast.Call) and isinstance(n.func, ast.Attribute) and n.func.attr in _MUTATING \
+                    and isinstance(n.func.value, ast.Attribute) and n.func.value.attr == name:
+                return True
+            if isinstance(n, (ast.Assign, ast.AugAssign, ast.Delete)):
+                tg = n.targets if isinstance(n, (ast.Assign, ast.Delete)) else [n.target]
+                for t in tg:
+                    if isinstance(t, ast.Subscript) and isinstance(t.value, ast.Attribute) and t.value.attr == name:
+                        return True
+                    if isinstance(n, ast.AugAssign) and isinstance(t, ast.Attribute) and t.attr == name:
+                        return True
+    return False
+
+
+def hidden_state(repo, functions=None, classes=None):
+    """Containers that outlive a call without being anyone's argument: [(where, what)] for
+    * a mutable default value of a parameter (one object for all calls),
+    * a mutable literal as a class-level default — for an attrs class `xs: List = []` is ONE list shared by every instance
+      (attr.Factory(list) makes one per instance), for a plain class it is a class attribute."""
+    out = []
+    for f in (functions if functions is not None else repo.all_functions()):
+        for p, d in f.defaults.items():
+            if _mutable_literal(d):
+                out.append((f.loc(), "%s: parameter %s has the mutable default %s (one object shared by all calls)" % (f.qualname, p, ast.unparse(d)[:40])))
+    for c in (classes if classes is not None else repo.all_classes()):
+        for st in c.node.body:
+            v = None
+            if isinstance(st, ast.AnnAssign) and st.value is not None and isinstance(st.target, ast.Name):
+                v, nm = st.value, st.target.id
+            elif isinstance(st, ast.Assign) and len(st.targets) == 1 and isinstance(st.targets[0], ast.Name):
+                v, nm = st.value, st.targets[0].id
+            if v is None:
+                continue
+            if isinstance(v, ast.Call) and ast.unparse(v.func) in ("attr.ib", "attr.attrib", "attrs.field", "attr.field", "dataclasses.field", "field"):
+                dv = [k.value for k in v.keywords if k.arg == "default"]
+                v = dv[0] if dv else None
+            if v is not None and _mutable_literal(v) and _field_is_mutated(repo, nm):
+                out.append(("%s:%d" % (c.module.relpath, st.lineno),
+                            "%s.%s has the mutable class-level default %s (shared by every instance)" % (c.name, nm, ast.unparse(v)[:40])))
+    return out
